@@ -56,6 +56,7 @@ class ModSpec:
         self.drop_fns = set()
         self.structural = set()
         self.private = set()   # structs whose fields stay private (type invariants)
+        self.broadcast = None  # lemma groups inserted at the top of every exec fn body and loop body
         self.rewrites = []      # (fnkey or '*', literal_from, literal_to, reason)
         self.uses = []
 
@@ -181,6 +182,8 @@ def parse_vspec(path, name):
             ms.defaults[sname] = expr.strip()
         elif d == 'structural':
             ms.structural.update(arg.split())
+        elif d == 'broadcast':
+            ms.broadcast = arg.strip()
         elif d == 'private':
             ms.private.update(arg.split())
         elif d == 'rewrite':
@@ -412,7 +415,7 @@ def apply_literal_rewrites(text, fnkey, ms, out, glob):
 LOOP_RE = re.compile(r'\b(for|while|loop)\b')
 
 
-def rewrite_loops(body, spec, fnkey, out):
+def rewrite_loops(body, spec, fnkey, out, bcast=None):
     """D5: add `it:` binder + invariants to the n-th loop.  Returns new body and a list of
     (marker, loop_index) for provenance."""
     mask = code_mask(body)
@@ -454,7 +457,7 @@ def rewrite_loops(body, spec, fnkey, out):
         close = match_close(mask, j)
         inner = body[j + 1:close]
         pieces.append(body[i:m.start()])
-        marker_top = ''.join('\n' + t for t in (ls['top'] if ls else []))
+        marker_top = ('\nbroadcast use {%s};' % bcast if bcast else '') + ''.join('\n' + t for t in (ls['top'] if ls else []))
         marker_end = ''.join('\n' + t for t in (ls['end'] if ls else []))
         # recursively handle nested loops inside `inner` by continuing the scan: we only
         # rewrite the header here and keep scanning after '{'
@@ -862,7 +865,7 @@ class Splicer:
         if mut_self:
             body = rename_self(body)
         body = apply_hints(body, spec, fq)
-        body = rewrite_loops(body, spec, fq, out)
+        body = rewrite_loops(body, spec, fq, out, ms.broadcast)
         body = re.sub(r'@@LOOP\d+@@', '', body)
         # drop cfg(target_pointer_width) arms other than 64 (statement attributes)
         body = re.sub(r'#\[cfg\(target_pointer_width\s*=\s*"(16|32)"\)\]\s*[^;]*;', '', body)
@@ -870,6 +873,8 @@ class Splicer:
         top = []
         if mut_self:
             top.append('let mut __self = self;')
+        if ms.broadcast:
+            top.append('broadcast use {%s};' % ms.broadcast)
         top.extend(spec.top)
         if top:
             body = '{\n' + '\n'.join(top) + body[1:]
